@@ -15,6 +15,6 @@ mkdir -p "$S/harness"
 cp -a "$ROOT/harness/Cargo.toml" "$ROOT/harness/Cargo.lock" "$ROOT/harness/.cargo" "$ROOT/harness/vh" "$ROOT/harness/vh-http" "$S/harness/"
 sed -i "s#path = \"/repo#path = \"$S/repo#g" "$S/harness/vh/Cargo.toml" "$S/harness/vh-http/Cargo.toml"
 # warm start: reuse the compiled third-party dependencies
-if [ -d "$ROOT/harness/target" ]; then cp -a "$ROOT/harness/target" "$S/harness/target"; fi
+if [ -d "$ROOT/harness/target" ]; then cp -a "$ROOT/harness/target" "$S/harness/target" 2>/dev/null || true; fi
 cd "$ROOT"
 VERIF_HARNESS_DIR="$S/harness" VERIF_WORK_SUFFIX="-mut$$" ./check "$PID_" "$@"
